@@ -9,9 +9,22 @@ namespace Orbit.Order
 
 /-- `BaseStore.AddOperation` (`Store.addOp`, `Model/Writers.lean`, `Model/ViewRace.lean`): under the
 write mutex append to the log, raise the replication status right away (the entry is held from the
-append on, whatever fails afterwards: C19) and persist the entry as `_localHeads`; then refresh the
+append on, whatever fails afterwards: C19), read the cached `_localHeads` (what the log does not hold of
+them is kept: F33) and persist the entry as `_localHeads`; then refresh the
 view; only then emit the write event (C16: an event is never ahead of the state it announces; C17). -/
-def addOperation : List String := ["lock", "append", "status", "headput", "index", "emit"]
+def addOperation : List String := ["lock", "append", "status", "prevheads", "headput", "index", "emit"]
+
+/-- one cached head of `BaseStore.Load` (`Store.loadChecked`, `loadHead`, `missingFetch`, `goodFetch`): the
+log is fetched; an ended context or a head that did not come back ends the load with an error (F32);
+of the fetched entries only those of this log (F27) that the store does not hold yet (F36) and that
+the access controller and the signature check accept (F29) are kept; they are merged WITHOUT a trim,
+and the trim is asked for only once the listing is longer than the limit (F30) -/
+def loadJoin : List String := ["fetch", "ctxcheck", "headcheck", "ownlog", "held", "canappend", "verify", "merge", "listing", "trim"]
+
+/-- `pubsubcoreapi` `WatchMessages`: the subscription of the underlying pubsub is closed when the
+goroutine that reads it ends (the `defer` precedes the read loop): the node leaves the topic with the
+store (C18, C20) -/
+def watchMessages : List String := ["subscribe", "close", "next"]
 
 /-- `replicationLoadComplete` (`Store.loadEnd`): join every log of the batch, refresh the view, take
 the heads of the MERGED log, persist them as `_remoteHeads`, then emit `replicated` (C05: what is
